@@ -116,10 +116,10 @@ CONFIG = {
                 keys=["panic", "err", "unknown", "ret", "vals"], transform=common.hide_help, theorems="C07_*"),
     "C08": dict(profile=dict(p_commands=0.95, max_depth=3, p_alias=0.6, p_subopt=0.4, p_ev_cmd=0.35, p_required=0.02, p_bad_value=0.02,
                              p_ev_unknown=0.03, n_events=(1, 9), p_positional=0.15),
-                keys=["panic", "err", "active", "vals", "ret"], transform=common.hide_help, theorems="C08_*"),
+                keys=["panic", "err", "active", "vals", "ret"], transform=common.hide_help, theorems="C08_*", n_quick=250),
     "C09": dict(profile=dict(p_commands=0.95, p_exec=0.9, p_cmdhandler=0.5, p_exec_err=0.3, p_ev_cmd=0.3, p_required=0.15, p_bad_value=0.1,
                              p_ev_unknown=0.08, p_help=0.7, n_events=(1, 8)),
-                keys=["panic", "err", "exec", "ret"], transform=common.hide_help, oracle=oracle_c09, theorems="C09_*"),
+                keys=["panic", "err", "exec", "ret"], transform=common.hide_help, oracle=oracle_c09, theorems="C09_*", n_quick=400),
     "C10": dict(profile=dict(p_positional=0.95, n_pos=(1, 4), p_ev_plain=0.4, p_ev_term=0.08, p_passdd=0.8, p_required=0.02, p_commands=0.4,
                              p_bad_value=0.04, p_ev_unknown=0.02, n_events=(1, 10), p_pos_required=0.2),
                 keys=["panic", "err", "vals", "ret"], transform=t_err_type_only, theorems="C10_*"),
